@@ -1,6 +1,6 @@
 (* Props_C10.v — the directory is a valid layout equal to the API state.  Model: Reg.v (requests), GC.v (collections,
    restarts); what the directory of a repository holds = its blobs, the top-level entries of its index and the conversion mark. *)
-From Olareg Require Import Base Index IndexInv Reg RegProofs RegInv TagProofs GC GCProofs LayoutProofs KindProofs.
+From Olareg Require Import Base Index IndexInv Reg RegProofs RegInv TagProofs GC GCProofs LayoutProofs KindProofs ChildInv.
 Local Open Scope list_scope.
 
 (* blobs/<alg>/<hex>: in every state reachable by client requests every stored blob is stored under the digest of its bytes ... *)
@@ -55,3 +55,19 @@ Print Assumptions C10_store_type_indifferent.
 (* non-vacuity: a tag listing on repository "a" is such a request in every state *)
 Example C10_neutral_example : forall cfg E s, neutral_run cfg E (handler cfg E (QTagList "a" "" "")) s.
 Proof. intros. simpl. repeat split. Qed.
+
+(* the derived part of the state - the in-memory list of child manifests that index.json does not record - only ever holds
+   descriptors listed under a manifest media type, through any requests, collections, ageing and restarts: a descriptor under
+   which an index lists a digest as a plain blob never becomes (or shadows) the child entry of a manifest, neither when the
+   index is pushed nor when the directory is read again (finding C05-F50, repaired) *)
+Theorem C10_child_entries_are_manifests_requests : forall cfg E h, ChildOK (fst (run_hist cfg E init_state h)).
+Proof. exact child_ok_reachable. Qed.
+Theorem C10_child_entries_are_manifests_gc : forall cfg pol E s g, ChildOK s -> ChildOK (fst (gstep cfg pol E s g)).
+Proof. exact gstep_child_ok. Qed.
+Theorem C10_reopen_child_entries_are_manifests : forall E rp, repo_child_ok (reload_repo E rp).
+Proof. exact reload_child_ok. Qed.
+Theorem C10_push_skips_blob_descriptors : forall d cs i i' c,
+  add_desc d cs i = Ok i' -> In c (child i') -> manifest_mt (d_mt c) = false -> In c (child i).
+Proof. exact add_desc_skips_blob_descriptors. Qed.
+Print Assumptions C10_child_entries_are_manifests_gc.
+Print Assumptions C10_push_skips_blob_descriptors.
